@@ -44,7 +44,10 @@ fn build(srcs: &[Vec<u64>], number_from: Option<u32>, tm: &std::collections::BTr
                     let mut pl = Vec::new();
                     pl.extend_from_slice(&(s as u32 + 1).to_le_bytes());
                     pl.extend_from_slice(&(p as u32 + 1).to_le_bytes());
-                    let idx = number_from.map(|n| n + p as u32).unwrap_or(0xdead_0000 + p as u32);
+                    // the sources' OWN index values are arbitrary (gaps, repeats, decreasing - as from a filtered or re-numbered source):
+                    // the numbering of the result may not depend on them
+                    let own = match s % 3 { 0 => 0xdead_0000u32 + ((p as u32).wrapping_mul(2654435761) >> 22), 1 => 0, _ => 0xdead_0000u32 - 3 * p as u32 };
+                    let idx = number_from.map(|n| n + p as u32).unwrap_or(own);
                     let mut m = mk_msg(idx, if s % 2 == 0 { "ECU1" } else { "ECU2" }, tm[rx], (p as u32) * 10, pl);
                     m.standard_header.mcnt = (s * 31 + p) as u8;
                     m
